@@ -55,6 +55,13 @@ def matrix(rng, n, m, kind=None):
         r = max(1, min(n, m) - int(rng.integers(1, 3)))
         B = (rng.integers(-4, 5, size=(n, r)) @ rng.integers(-3, 4, size=(r, m))).astype(float) / 4.0
         B = B + rng.integers(-8, 9, size=(n, m)) / 2.0 ** 33
+    elif kind == "localized":
+        # modes with (nearly) disjoint supports: sensor rows that are zero in the leading modes
+        B = np.zeros((n, m))
+        for i in range(n):
+            B[i, i % m] = float(rng.integers(1, 17)) / 4.0 * float(rng.choice([-1.0, 1.0]))
+        if n > m:
+            B[rng.integers(0, n), :] += rng.integers(-4, 5, size=m) / 8.0
     elif kind == "illcond":
         t = np.arange(1, n + 1, dtype=float) / 2.0
         B = np.vander(t, m, increasing=True)
